@@ -33,7 +33,7 @@ def run(ctx):
     ctx.coverage["rule"] = ("adversary units per transport: 3 random strings per length class, every prefix (quick: every 3rd plus all "
                             "cuts inside the padding and at region boundaries) and single-bit mutation (quick: every 7th bit) of the "
                             "authenticated part of fresh genuine first segments, foreign-credential handshakes; distinct_nontrivial = "
-                            "units that pass at least the header-length test")
+                            "distinct (transport, unit class) pairs that pass at least the header-length test")
     ctx.assumptions += ["virtual time (testing/synctest); observation window 200 s per TCP connection",
                         "the adversary's copies of genuine first segments are of segments the server never received intact"]
     wd = vlib.scratch_dir("verif-c05-")
@@ -44,7 +44,7 @@ def run(ctx):
             events = ingress.run_world(ctx, wd, sd, name="c05_%d" % k)
             adv = [e for e in events if e["ev"] == "In" and e["adv"] and mine(e)]
             ctx.coverage["evaluations"] += len(adv)
-            ctx.coverage["distinct_nontrivial"] += sum(1 for e in adv if e["hdr"] == "full")
+            ctx.coverage["distinct_nontrivial"] += len({(e["tr"], e["cls"]) for e in adv if e["hdr"] == "full"})
             if k == 0:
                 ctx.sample({"kind": "adversary unit as logged", "event": next(e for e in adv if e["cls"].startswith("prefix") and e["hdr"] == "full")})
                 ctx.sample({"kind": "adversary unit as logged", "event": next(e for e in adv if e["cls"].startswith("bitflip") and e["body"] == "bad")})
